@@ -437,22 +437,24 @@ fn explore(ctx: &Ctx) -> Outcome {
     // from the size word cannot tell them apart
     for cfg in CFGS {
         for target in [0x10100usize, 0x20200] {
-            let build = |l: usize| -> Case { Case { cfg, title: "t".into(), entries: vec![("MID_A".into(), "first".into()), ("MID_LONG".into(), "abcdefgh".chars().cycle().take(l).collect()), ("MID_Z".into(), "z".into())], loaded: None } };
-            let size_of = |c: &Case| -> Option<usize> {
-                let mut a = TextArchive::new(mfmt(c.cfg.fmt), mend(c.cfg.e));
-                a.set_title(c.title.clone());
-                for (k, m) in &c.entries {
-                    a.set_message(k, m);
-                }
-                a.serialize().ok().map(|b| b.len())
-            };
-            let per_char = if cfg.fmt == Fmt::Unicode { 2 } else { 1 };
-            if let Some(s0) = size_of(&build(8)) {
-                if target > s0 {
-                    let l = 8 + (target - s0) / per_char;
-                    for dl in [0usize, 1, 2, 3, 4] {
-                        let c = build(l.saturating_sub(2) + dl);
-                        f7.push(c);
+            // the key name's length shifts the size by single bytes, the message length by words
+            for r in 0..4usize {
+                let build = |l: usize| -> Case { Case { cfg, title: "t".into(), entries: vec![("MID_A".into(), "first".into()), (format!("MID_LONG{}", "x".repeat(r)), "abcdefgh".chars().cycle().take(l).collect()), ("MID_Z".into(), "z".into())], loaded: None } };
+                let size_of = |c: &Case| -> Option<usize> {
+                    let mut a = TextArchive::new(mfmt(c.cfg.fmt), mend(c.cfg.e));
+                    a.set_title(c.title.clone());
+                    for (k, m) in &c.entries {
+                        a.set_message(k, m);
+                    }
+                    a.serialize().ok().map(|b| b.len())
+                };
+                let per_char = if cfg.fmt == Fmt::Unicode { 2 } else { 1 };
+                if let Some(s0) = size_of(&build(8)) {
+                    if target > s0 && (target - s0) % 4 == 0 {
+                        let l = 8 + (target - s0) / per_char;
+                        for dl in 0..5usize {
+                            f7.push(build(l.saturating_sub(2) + dl));
+                        }
                     }
                 }
             }
@@ -468,7 +470,7 @@ fn explore(ctx: &Ctx) -> Outcome {
                 if c.entries.len() > 6 {
                     cj = json!({"dense_entries": c.entries.len(), "fmt": format!("{:?}", c.cfg.fmt), "endian": format!("{:?}", c.cfg.e)});
                 } else if c.entries.iter().any(|e| e.1.len() > 40_000) {
-                    cj = json!({"sized_message_chars": c.entries[1].1.chars().count(), "fmt": format!("{:?}", c.cfg.fmt), "endian": format!("{:?}", c.cfg.e)});
+                    cj = json!({"sized_message_chars": c.entries[1].1.chars().count(), "sized_key": c.entries[1].0, "fmt": format!("{:?}", c.cfg.fmt), "endian": format!("{:?}", c.cfg.e)});
                 }
                 t.violate(sig, summary.chars().take(500).collect::<String>(), cj);
             }
@@ -550,7 +552,7 @@ fn replay(ctx: &Ctx, case: &Value) -> Vec<Violation> {
     if let Some(l) = case["sized_message_chars"].as_u64() {
         let fmt = if case["fmt"] == "ShiftJis" { Fmt::ShiftJis } else { Fmt::Unicode };
         let e = if case["endian"] == "Big" { End::Big } else { End::Little };
-        let c = Case { cfg: Cfg { fmt, e }, title: "t".into(), entries: vec![("MID_A".into(), "first".into()), ("MID_LONG".into(), "abcdefgh".chars().cycle().take(l as usize).collect()), ("MID_Z".into(), "z".into())], loaded: None };
+        let c = Case { cfg: Cfg { fmt, e }, title: "t".into(), entries: vec![("MID_A".into(), "first".into()), (case["sized_key"].as_str().unwrap_or("MID_LONG").to_string(), "abcdefgh".chars().cycle().take(l as usize).collect()), ("MID_Z".into(), "z".into())], loaded: None };
         let mut t = Tally::new();
         return judge(&c, &mut t).map(|(sig, summary)| vec![Violation { sig, summary: summary.chars().take(500).collect(), case: case.clone() }]).unwrap_or_default();
     }
